@@ -37,6 +37,7 @@ type Universe struct {
 	specFiles []string
 	loops     map[*ssa.Function][]*LoopInfo
 
+	asets         map[string]*AssignSet
 	gfacts        []*gfact
 	globalFacts   map[string]*globalFact
 	globalWritten map[string]string
@@ -72,6 +73,7 @@ func loadUniverse() (*Universe, error) {
 		specFuncs: map[string]*SpecFunc{},
 		ghosts:    map[string]*GhostField{},
 		bvTypes:   map[string]bool{},
+		asets:     map[string]*AssignSet{},
 		typeIDs:   map[string]int{},
 		typeByID:  map[int]types.Type{},
 		funcIDs:   map[string]int{},
@@ -169,6 +171,9 @@ func (u *Universe) addSpec(sf *SpecFile, path string) error {
 		if c.Trusted {
 			u.assumes = append(u.assumes, "trusted (body not verified): "+c.FuncName)
 		}
+	}
+	for _, a := range sf.ASets {
+		u.asets[a.Name] = a
 	}
 	u.lemmas = append(u.lemmas, sf.Lemmas...)
 	for _, g := range sf.GFacts {
